@@ -1,5 +1,8 @@
 import Pcore.Proofs.SliceHeapRefine
+import Pcore.Proofs.Caches
+import Pcore.Proofs.SliceHeapAlias
 import Pcore.Generated.SliceIdioms
+import Pcore.Generated.CacheFacts
 /-!
 # C08 — Values are immutable: no operation disturbs a value obtained earlier
 
@@ -21,8 +24,9 @@ Full statement / proved / missing
                       with `IdiomsSafe`, every history `ops` over the complete operation set (constructors incl.
                       parser/collector-built values with spare capacity, the `Hash.new(tree)` constructor, add, addAll,
                       delete, deleteAll, slice, the slices `EachSlice` hands out, map, select, reject, sort, flatten,
-                      unique, at/get of a nested container, merge, keys, values, entries, asArray, mapValues,
-                      select/rejectPairs, mutable-hash put/putAll, observers), every value `i` and every later time `j`:
+                      unique, at/get of a nested container, merge, `Hash.AddAll(Array)`, keys, values, entries, asArray,
+                      mapValues, select/rejectPairs, mutable-hash put/putAll, serializer → collector / deserializer
+                      copies, `ResolveDeferred`, observers), every value `i` and every later time `j`:
                       `content (runHeap P tbl (ops.take j)) i = pureResult ops i`.
                       By induction over the op list with the sealing invariant (`step_refines`: a step is the pure step
                       on the represented state and keeps every slice header valid; under a safe table no cell of an
@@ -33,6 +37,8 @@ Full statement / proved / missing
                       any such row.
 * `C08_sealed`      — the sealing invariant as a theorem of its own: extending a history leaves every existing backing
                       array untouched, cell by cell (`heap' = heap ++ new arrays`).
+* `C08_pointer_stable` — pointer = copy: what a reference to pool value `n` denotes (what `a.Add(b)` stores for `b`) is the
+                      same at every later time; this is the theorem behind modelling a nested container by its content.
 * `C08_stable`      — corollary: what value `i` holds at any two later times is the same.
 * `C08_impl`        — `C08_refine` instantiated on the regenerated table.
 * `C08_appendToReceiver_breaks`, `C08_resliceThenAppend_breaks`, `C08_inPlace_breaks` — the constructive converses:
@@ -40,6 +46,19 @@ Full statement / proved / missing
                       `resliceThenAppend`, resp. an in-place write row for `Array.Sort`) admits a concrete three-step
                       history on which an earlier value's content changes (the `a.Add(2); a.Add(3)` shape with spare
                       capacity; these are the defects of tag `verif-base` and mutants of DESIGN Appendix E).
+* `C08_caches_safe`, `C08_cache_coherent`, `C08_stale_cache_breaks` — the hidden per-value state (`Model/Caches.lean`):
+                      the lazily built caches `reducedType`, `detailedType`, `index` belong to Go objects, hold the
+                      content they were computed from, and are filled at ARBITRARY moments (a schedule parameter: any
+                      operation, a snapshot, a printer may have asked).  `C08_cache_coherent`: for every policy, safe
+                      table, cache facts with `CachesSafe`, schedule and history, whatever an observation of any live
+                      value is computed from — the cached snapshot or the storage — is what the pure layer says the
+                      value holds: inferring a type, printing, hashing, looking up never changes what is observed of
+                      any value, and what they cached is never stale.  `CachesSafe` (by `decide` on the facts
+                      regenerated from arraytype.go/hashtype.go: the hidden fields are exactly these, every write to
+                      one is a guarded lazy fill or a reset, the only mutator `MutableHashValue.PutAll` resets ALL of
+                      them) is the obligation that commit 01dc3ec made true; `C08_stale_cache_breaks` is its converse
+                      (facts without the `reducedType` reset: a mutable hash whose type was asked for before a `Put`
+                      answers from the old content afterwards).
 * missing / trusted — (1) the extractor's classification of Go expressions into idioms (DESIGN §5.4) — cross-checked on
                       every run by the storage-shape correspondence (which values share a backing array, read off the
                       real slice headers, against the model's headers); (2) nested containers inside a cell are pure
@@ -81,15 +100,114 @@ theorem C08_sealed (P : Policy) (tbl : Table) (ht : IdiomsSafe tbl) (ops more : 
   rw [List.foldl_append]
   exact foldl_sealed P tbl ht more _
 
+/-- POINTER = COPY.  Where Go stores a pointer to a container `b` inside another value (`a.Add(b)`, a hash value, a key),
+    the model stores a copy of what `b` holds.  `b` is itself a pool value, so under a safe table the two cannot be told
+    apart: whatever a reference to pool value `n` denotes at some time `j` it denotes at every later time `j'` (its
+    cells are never written, and only mutable hashes — which are never nested — are ever retired).  Hence the content
+    of a value as the model has it, nested containers included, is what a walk through the real pointers yields. -/
+theorem C08_pointer_stable (P : Policy) (tbl : Table) (ht : IdiomsSafe tbl) (ops : List Op) :
+    ∀ n j j' v, n < j → j ≤ j' → j' ≤ ops.length →
+      elemVal (runHeap P tbl (ops.take j)).look (.ref n) = some v →
+      elemVal (runHeap P tbl (ops.take j')).look (.ref n) = some v := by
+  intro n j j' v hn hjj hj h
+  have e1 : (runHeap P tbl (ops.take j)).look = (runPure (ops.take j)).look := by
+    rw [← abs_look, run_refines P tbl ht]
+  have e2 : (runHeap P tbl (ops.take j')).look = (runPure (ops.take j')).look := by
+    rw [← abs_look, run_refines P tbl ht]
+  rw [e1] at h
+  rw [e2]
+  simp only [elemVal] at h ⊢
+  cases hl : (runPure (ops.take j)).look n with
+  | none => rw [hl] at h; cases h
+  | some p =>
+    obtain ⟨k, xs⟩ := p
+    rw [hl] at h
+    cases k
+    · rw [look_stable ops n j j' hn hjj hj .arr xs (by decide) hl]; exact h
+    · rw [look_stable ops n j j' hn hjj hj .hsh xs (by decide) hl]; exact h
+    · cases h
+
 /-- instantiated on the code as it is now -/
 theorem C08_impl (P : Policy) (ops : List Op) :
     ∀ i j, i < j → j ≤ ops.length → content (runHeap P sliceIdioms (ops.take j)) i = pureResult ops i :=
   C08_refine P sliceIdioms C08_idioms_safe ops
 
-/-! ### non-vacuity -/
-
 /-- a policy with spare capacity everywhere (doubling growth, four spare cells on every fresh result) -/
 def samplePolicy : Policy := ⟨fun c _ => 2 * c + 1, fun _ _ _ => 4⟩
+
+/-! ### the lazily built caches -/
+
+/-- obligation over the regenerated cache facts -/
+theorem C08_caches_safe : CachesSafe cacheFacts := by decide
+
+/-- filling a cache never changes (and never falsifies) an observation: at any time, under any schedule of fills, what
+    an observation of field `fld` of a live value `i` is computed from is what the pure layer says `i` holds -/
+theorem C08_cache_coherent (P : Policy) (tbl : Table) (ht : IdiomsSafe tbl) (facts : CacheFacts) (hf : CachesSafe facts)
+    (sched : Nat → List (Nat × CacheField)) (ops : List Op) :
+    ∀ i j fld xs, i < j → j ≤ ops.length →
+      observedContent (runC P tbl facts sched (ops.take j)) i fld = some xs → pureResult ops i = some xs := by
+  intro i j fld xs hij hj hobs
+  have inv := CInv.run P tbl ht facts hf sched (ops.take j)
+  have hhs := runC_hs P tbl facts sched (ops.take j)
+  rw [← C08_refine P tbl ht ops i j hij hj, ← hhs]
+  unfold observedContent at hobs
+  cases hs : (runC P tbl facts sched (ops.take j)).hs.slice? i with
+  | none => rw [hs] at hobs; cases hobs
+  | some p =>
+    obtain ⟨k, sl⟩ := p
+    rw [hs] at hobs
+    cases ho : (runC P tbl facts sched (ops.take j)).obj[i]? with
+    | none => rw [ho] at hobs; cases hobs
+    | some o =>
+      rw [ho] at hobs
+      simp only at hobs
+      have hmem := slice?_mem hs
+      have hc : content (runC P tbl facts sched (ops.take j)).hs i =
+          some ((runC P tbl facts sched (ops.take j)).hs.heap.read sl) := by
+        unfold content
+        unfold HState.slice? at hs
+        split at hs
+        · cases hs
+        · cases hp : (runC P tbl facts sched (ops.take j)).hs.pool[i]? with
+          | none => rw [hp] at hs; cases hs
+          | some e =>
+            rw [hp] at hs
+            cases e with
+            | mark m => cases hs
+            | val k2 s2 =>
+              simp only [Option.some.injEq, Prod.mk.injEq] at hs
+              obtain ⟨_, rfl⟩ := hs
+              rfl
+      rw [hc]
+      cases hg : ((runC P tbl facts sched (ops.take j)).caches o).get fld with
+      | none => rw [hg] at hobs; exact hobs
+      | some snap =>
+        rw [hg] at hobs
+        simp only [Option.some.injEq] at hobs
+        subst hobs
+        rw [inv.coh i k sl o hs ho fld snap hg]
+
+/-- the cache facts before "fix: MutableHashValue.Put/PutAll kept the cached inferred type" (commit 01dc3ec) -/
+def factsBefore : CacheFacts where
+  fields := cacheFacts.fields
+  writes := cacheFacts.writes.filter (fun w => !(w.1 == "MutableHashValue.PutAll" && w.2.1 == "reducedType"))
+  mutators := cacheFacts.mutators
+example : ¬ CachesSafe factsBefore := by decide
+
+/-- a new mutable hash, its type asked for (fill scheduled before step 1), then a `Put` -/
+def putAfterAsk : List Op := [.mnew, .mput 0 (.lit (.int 1)) (.lit (.int 1))]
+def askFirst : Nat → List (Nat × CacheField) := fun n => if n = 1 then [(0, .reduced)] else []
+
+/-- without the reset of `reducedType` the changed hash answers "what is your type" from the content it had BEFORE the
+    `Put` (the empty hash), although it holds `{1 => 1}` -/
+theorem C08_stale_cache_breaks :
+    (observedContent (runC samplePolicy sliceIdioms factsBefore askFirst putAfterAsk) 1 .reduced).map renderH = some "" ∧
+    (pureResult putAfterAsk 1).map renderH = some " ((i 1) (i 1))" ∧
+    (observedContent (runC samplePolicy sliceIdioms cacheFacts askFirst putAfterAsk) 1 .reduced).map renderH
+      = some " ((i 1) (i 1))" := by
+  refine ⟨by decide, by decide, by decide⟩
+
+/-! ### non-vacuity -/
 
 /-- a history that re-uses results: literal with spare capacity, two adds on the same receiver, a slice of a result,
     an add on the slice (whose capacity covers live cells of value 1), a delete, a hash with merge and delete -/
